@@ -41,12 +41,12 @@ const (
 
 type tmpl struct {
 	name     string
-	cpuReq   int64 // mCPU
-	cpuLim   int64 // mCPU, 0 = none
-	memLim   int64 // bytes, 0 = none
+	cpuReq   int64  // mCPU
+	cpuLim   int64  // mCPU, 0 = none
+	memLim   int64  // bytes, 0 = none
 	initCpus string // cpuset.cpus the runtime creates the container with
 	initMems string
-	oomAdj   int64 // Burstable only: oom_score_adj the kubelet derived from the memory request (0 = 999)
+	oomAdj   int64  // Burstable only: oom_score_adj the kubelet derived from the memory request (0 = 999)
 	shape    string // which optional sub-messages the runtime omits: "", no-linux, no-resources, no-cpu, no-memory, pod-no-linux
 }
 
@@ -92,12 +92,13 @@ type scenario struct {
 
 type menu struct {
 	start, update, stop, remove, sync, restart bool
-	podStop, podRemove, podRun                bool
-	reconf                                    []int // configuration indices offered as reconf:<k>
-	illFormed                                 bool  // also offer out-of-order lifecycle events
-	restartTruth                              bool  // offer restarts with a changed runtime truth (containers/pods gone, stopped, new)
-	restartCuts                               bool  // offer restarts from a cache saved in the middle of the last request
-	ghost                                     bool  // also offer events that name a pod/container the plugin has never seen
+	podStop, podRemove, podRun                 bool
+	reconf                                     []int // configuration indices offered as reconf:<k>
+	illFormed                                  bool  // also offer out-of-order lifecycle events
+	restartTruth                               bool  // offer restarts with a changed runtime truth (containers/pods gone, stopped, new)
+	restartCuts                                bool  // offer restarts from a cache saved in the middle of the last request
+	recreateLive                               bool  // offer creating a same-named container while the old one is still alive in the runtime
+	ghost                                      bool  // also offer events that name a pod/container the plugin has never seen
 }
 
 // ---------------------------------------------------------------------------
@@ -154,13 +155,13 @@ type wpod struct {
 }
 
 type world struct {
-	scn    *scenario
-	pods   []*wpod
-	ctrs   []*wctr          // current incarnation per slot
-	old    []*wctr          // previous incarnations (stopped or removed)
-	byID   map[string]*wctr // every incarnation ever created
-	rank   int
-	cfgIdx int
+	scn      *scenario
+	pods     []*wpod
+	ctrs     []*wctr          // current incarnation per slot
+	old      []*wctr          // previous incarnations (stopped or removed)
+	byID     map[string]*wctr // every incarnation ever created
+	rank     int
+	cfgIdx   int
 	ghostPod *wpod // a pod the plugin is never told about through RunPodSandbox
 	ghostCtr *wctr
 }
@@ -470,23 +471,23 @@ type reply struct {
 }
 
 type exec struct {
-	scn      *scenario
-	w        *world
-	in       *inst
-	dir      string
-	log      []string    // told-view problems found while applying replies (C05 material)
-	addr     []addressed // every adjustment/update addressed to a container, for C12
-	last     *reply
-	restarts int
+	scn        *scenario
+	w          *world
+	in         *inst
+	dir        string
+	log        []string    // told-view problems found while applying replies (C05 material)
+	addr       []addressed // every adjustment/update addressed to a container, for C12
+	last       *reply
+	restarts   int
 	prevTarget *wctr // target container of the previous event
 	frozenSync bool
 	frozenPods []string // world pod slots listed by a frozen Synchronize
 	frozenCtrs []string // container ids listed by a frozen Synchronize, with their state at freeze time
 	frozenLife map[string]int
-	cutAfter   string // kind of the request a restartcut interrupted
-	addrMark  int               // index into addr where the last event started
-	cfgBefore int               // configuration index before the last event
-	preSnap   *snap             // snapshot before the last event
+	cutAfter   string         // kind of the request a restartcut interrupted
+	addrMark   int            // index into addr where the last event started
+	cfgBefore  int            // configuration index before the last event
+	preSnap    *snap          // snapshot before the last event
 	lastSaves  [][]byte       // cache file content after every save made by the last event
 	lastKind   string         // kind of the last event
 	extraPod   *wpod          // a pod+container the runtime created while the plugin was down
@@ -500,8 +501,8 @@ type addressed struct {
 	cpus    string
 	mems    string
 	hadMems string // cpuset.mems the runtime had for the container when the message arrived
-	kind string // adjust, update, push
-	ev   string
+	kind    string // adjust, update, push
+	ev      string
 }
 
 func newExec(s *scenario, dir string) (*exec, error) {
@@ -890,6 +891,13 @@ func (x *exec) enabled() []string {
 			evs = append(evs, "rmpod:"+p.slot)
 		}
 	}
+	if m.recreateLive && !m.illFormed {
+		for _, c := range x.w.ctrs {
+			if c.live() && c.inc < maxInc && c.pod.life == lifeRunning {
+				evs = append(evs, "create:"+c.slot)
+			}
+		}
+	}
 	if m.illFormed {
 		for _, c := range x.w.ctrs {
 			switch c.life {
@@ -988,19 +996,19 @@ type memReq struct {
 }
 
 type snap struct {
-	World   []string
-	Cfg     int
-	Cache   map[string]cacheCtr
-	Pending []string
-	Pods    []string
-	Zones   []zoneSnap
-	TA      *tapolicy.VerifSnap
-	BL      *balloonspolicy.VerifSnap
-	Export  map[string]map[string]string
-	MemZone map[string]uint64
-	MemCap  map[uint64]int64 // capacity of every non-empty node subset
-	MemAll  uint64           // mask of nodes with memory
-	MemReqs []memReq
+	World    []string
+	Cfg      int
+	Cache    map[string]cacheCtr
+	Pending  []string
+	Pods     []string
+	Zones    []zoneSnap
+	TA       *tapolicy.VerifSnap
+	BL       *balloonspolicy.VerifSnap
+	Export   map[string]map[string]string
+	MemZone  map[string]uint64
+	MemCap   map[uint64]int64 // capacity of every non-empty node subset
+	MemAll   uint64           // mask of nodes with memory
+	MemReqs  []memReq
 	CPUClass map[string][]int
 }
 
@@ -1098,7 +1106,6 @@ func (s *snap) key() string {
 	}
 	return mc.Hash(string(data))
 }
-
 
 // freezeSync fixes what a later Synchronize will list (used when requests are delivered concurrently).
 func (x *exec) freezeSync() {
